@@ -385,6 +385,16 @@ func c08BaseModels() []gen.Tagged {
 			{Name: "i2", Rw: ref.I(ref.I(ref.C("b"), ref.C("c")), ref.I(ref.C("c"), ref.T())), Restr: []ref.Restriction{{Type: "user"}}},
 			{Name: "i3", Rw: ref.I(ref.D(ref.C("b"), ref.C("c")), ref.D(ref.C("b"), ref.T())), Restr: []ref.Restriction{{Type: "user"}}},
 		}}}}},
+		// every kind of restriction as the FIRST entry of its list (a builder that carries a node over from the previous entry is
+		// only exposed when there is no previous entry), single-entry lists, a tupleset whose first entry is a userset
+		{Tag: "first-entries", M: &ref.Model{Schema: "1.1", Types: []ref.TypeDef{{Name: "user"}, {Name: "doc", Rels: []ref.Relation{
+			{Name: "a1", Rw: ref.T(), Restr: []ref.Restriction{{Type: "doc", Relation: "a2"}, {Type: "user"}}},
+			{Name: "a2", Rw: ref.T(), Restr: []ref.Restriction{{Type: "user", Wildcard: true}, {Type: "user"}}},
+			{Name: "a3", Rw: ref.U(ref.T(), ref.C("a2")), Restr: []ref.Restriction{{Type: "doc", Relation: "a2", Condition: "k"}}},
+			{Name: "a4", Rw: ref.I(ref.T(), ref.C("a2")), Restr: []ref.Restriction{{Type: "user", Wildcard: true, Condition: "k"}}},
+			{Name: "a5", Rw: ref.TT("a2", "p"), Restr: nil},
+			{Name: "p", Rw: ref.T(), Restr: []ref.Restriction{{Type: "doc", Relation: "a2"}, {Type: "doc"}}},
+		}}}, Conds: []ref.Condition{{Name: "k", Params: []ref.Param{{Name: "s", Type: "bool"}}, Expr: "s"}}}},
 		{Tag: "small", M: &ref.Model{Schema: "1.1", Types: []ref.TypeDef{{Name: "user"}, {Name: "doc", Rels: []ref.Relation{
 			{Name: "a", Rw: ref.I(ref.C("b"), ref.T()), Restr: []ref.Restriction{{Type: "user"}}},
 			{Name: "b", Rw: ref.T(), Restr: []ref.Restriction{{Type: "user"}, {Type: "doc", Relation: "b"}}},
@@ -1376,7 +1386,7 @@ func init() {
 		ID: "C08",
 		Rule: "(a) every string of <= 3 lexemes over a 38-lexeme DSL alphabet (length 3 over a 30-lexeme alphabet in quick) appended to 10 valid document prefixes, through TransformDSLToProto/JSON, TransformModularDSLToProto and as member of 1- and 2-file module sets; accepted texts continue through printer and both graph builders; " +
 			"every DSL text of the repository's shared test-data corpus with all its single mutations (each piece deleted, each of 30 lexemes inserted at each boundary; quick: for every 12th document); every string of <= 3/4 tokens over JSON and YAML token alphabets through TransformJSONStringToDSL / TransformModFile; every JSON value of two valid model documents replaced by 9 other JSON values. " +
-			"(b) fault enumeration on protobufs: every single and every pair (quick: pairs on the small base model) of degradations (pointer nil / empty, slice nil / empty-but-present / drop / nil element, map nil / empty-but-present / nil value / renamed key, string empty, oneof nil / nil payload, enum 0 / out of range) of four base models (two of them not DSL-expressible: every operator kind in every structural position with the direct assignment elsewhere; direct assignment in subtract and non-first positions, nested unary operators) through printer (both options), plain graph (+Reversed, GetDOT, GetCycles, PathExists) and weighted builder. " +
+			"(b) fault enumeration on protobufs: every single and every pair (quick: pairs on the small base model) of degradations (pointer nil / empty, slice nil / empty-but-present / drop / nil element, map nil / empty-but-present / nil value / renamed key, string empty, oneof nil / nil payload, enum 0 / out of range) of five base models (one with every kind of restriction as first and as only entry of its list; two of them not DSL-expressible: every operator kind in every structural position with the direct assignment elsewhere; direct assignment in subtract and non-first positions, nested unary operators) through printer (both options), plain graph (+Reversed, GetDOT, GetCycles, PathExists) and weighted builder. " +
 			"(c) pumping: every fragment of <= 2 lexemes (thorough: + every 3rd 3-lexeme fragment) repeated n and 2n times (n = 32 / 64) in 10 insertion contexts; scaled model families through printer and both graph builders at n = 8, 16, 32, 64: four fixed shapes (computed chain, fan-in union, long restriction list, TTU cycle) and every cell family (n levels of two relations whose rewrites range over a 9 x 8 menu over the next level - computed, union / intersection / exclusion of both, direct assignment with usersets of the next level, TTU, the sibling - with the last level open or wrapped back to the first as one tuple cycle: 144 families incl. all diamond-shaped DAGs); the weighted builder additionally from every start node of its depth-first weight assignment (n <= 32 quick / 64 thorough), growth judged on the worst start node; nested pumping: open^n inner close^n for 12 open/close pairs (parentheses with and without operators on either side, doubled) x 6 inner rewrites x 4 prefixes at depth 16 and 32 (thorough 20 and 40); deterministic step counts from build-time instrumentation, growth exponent log2(S(2n)/S(n)) <= 2.5, horizon 5e7 steps. " +
 			"states = outcome classes, non-trivial = distinct accepted texts and fault names",
 		Assume: []string{
